@@ -20,10 +20,12 @@ PID = 'C01'
 MOD = 'checks.c01'
 
 
-def task_grid(ctx, cfg, lead_shapes=((), (2,)), bilinear=False, analytic=True):
+def task_grid(ctx, cfg, lead_shapes=((), (2,)), bilinear=False, analytic=True, used=False):
   from dinosaur import spherical_harmonic as sh, associated_legendre as al, fourier
   grid = grids.make_grid(cfg)
-  name = grids.cfg_name(cfg)
+  name = grids.cfg_name(cfg) + ('-used' if used else '')
+  if used:
+    grids.exercise(grid)      # the clauses run on a grid object that has been used before (other options, dtypes, leading axes)
   ctx.encoded(sh.Grid.to_nodal, sh.Grid.to_modal, sh.Grid.integrate,
               type(grid.spherical_harmonics).transform, type(grid.spherical_harmonics).inverse_transform,
               type(grid.spherical_harmonics).basis.func, al.evaluate, al._evaluate_rhombus,
@@ -96,6 +98,8 @@ def make_tasks(tier, seed):
     tasks.append(dict(name=grids.cfg_name(cfg), fn='task_grid',
                       kw=dict(cfg=cfg, lead_shapes=((),) if big else ((), (2,), (2, 2)) if small else ((), (2,)),
                               bilinear=small, analytic=not big or True)))
+  for cfg in (G[1], G[4], G[7]) if tier == 'quick' else G[:10]:
+    tasks.append(dict(name=grids.cfg_name(cfg) + '-used', fn='task_grid', kw=dict(cfg=cfg, lead_shapes=((), (2,)), bilinear=False, analytic=False, used=True)))
   return tasks
 
 
